@@ -16,7 +16,7 @@
    without x (C04_first_call_safe; holds since f1bf5e1 stores _size before x -- the schedule that failed
    before is kept as a replayed regression case). *)
 From Coq Require Import ZArith List Bool.
-From PB Require Import C04.Sched C04.Model C04.Proofs C04.Model2D C04.Proofs2D.
+From PB Require Import C04.Sched C04.Model C04.Proofs C04.Model2D C04.Proofs2D C04.Model2DS C04.Proofs2DS.
 Import ListNotations.
 Open Scope Z_scope.
 
@@ -112,6 +112,34 @@ Theorem C04_first_call_2d_regression :
   prog_ok2 12 10 false false [Pro2 false 12 10; Use2 Dshape].
 Proof. exact first_call_2d_regression. Qed.
 Print Assumptions C04_first_call_2d_regression.
+
+(* 2-D SPLINE CACHE and the LAZY SplineBasis2D.basis (coq/C04/Model2DS.v: _setup_spline's read / same_basis /
+   publish / read of self._spline_basis, and `if self._basis is None: self._basis = kron(..)`; `return
+   self._basis` = read, [store], read on the basis object the thread's PSpline2D holds): ANY number of threads
+   requesting one (num_knots, spline_degree), ANY schedule, cache cold or warm with ANY key and the lazy
+   basis computed or not: no thread gets a None basis (error state) or a basis for another key.
+   (x, z, _shape are only read here; the thread's own prologue has set them: C04_first_call_2d_safe.) *)
+Theorem C04_spline2d_lazy_safe : forall kd (cache : option basisobj) progs sched,
+  Forall (prog_okS kd) progs ->
+  let st := run_schedS sched (match cache with Some o => warmS o | None => coldS end, map init_localS progs) in
+  length (snd st) = length progs /\
+  Forall (fun l => (forall e, spc l <> SErr e) /\ Forall (use_okS kd) (suses l) /\
+                   (outcomeS l = 0 \/ (outcomeS l = 9 /\ stodo l <> []))) (snd st).
+Proof. exact spline2d_lazy_safe. Qed.
+Print Assumptions C04_spline2d_lazy_safe.
+
+(* what it rests on: no step of the thread program ever takes `_basis` back to None *)
+Theorem C04_spline2d_lazy_monotone : forall s l j o, getb s j = Some o -> snd o = true ->
+  exists o', getb (fst (stepS s l)) j = Some o' /\ snd o' = true.
+Proof. exact lazy_monotone. Qed.
+Print Assumptions C04_spline2d_lazy_monotone.
+
+Example C04_spline2d_nonvacuous :
+  prog_okS (5, 3) [UseShapeS; Spl2 5 3; Lazy2; Lazy2] /\
+  map outcomeS (snd (run_schedS ([0; 0; 0; 0; 0; 0; 0] ++ repeat 1%nat 12 ++ repeat 0%nat 6)%nat
+       (coldS, [init_localS [UseShapeS; Spl2 5 3; Lazy2; Lazy2]; init_localS [UseShapeS; Spl2 5 3; Lazy2; Lazy2]])))
+    = [0; 0].
+Proof. exact spline2d_examples. Qed.
 
 (* REFUTED on the current tree: adaptive_minmax(poly_order=2) on a shared object with x present.
    Thread 0 pre-empted after k of its accesses, thread 1 run to completion:
